@@ -23,6 +23,14 @@ structure State where
   avail : Nat → Bool         -- `action_mask` (1 = not visited)
   done  : Bool               -- `done` (set by torchrl's reset to False, then by `_step`)
 
+/-- `_reset`'s `num_loc` as a function of the shape of `td["locs"]` (= batch dims ++ [n, 2]): the extracted
+expression either counts from the END (`shape[-2]`) or from the front (`size(1)`). -/
+def numLocOf (fromEnd : Bool) (shape : List Nat) : Nat :=
+  if fromEnd then shape.getD (shape.length - 2) 0 else shape.getD 1 0
+
+/-- mask width that `_reset` allocates for an instance of `n` cities inside a batch of shape `bs` -/
+def resetWidth (bs : List Nat) (i : Inst) : Nat := numLocOf Params.tspResetNumLocFromEnd (bs ++ [i.n, 2])
+
 /-- `_reset` -/
 def reset (_ : Inst) : State :=
   { first := 0, cur := 0, i := 0, avail := fun _ => true, done := false }
